@@ -31,7 +31,7 @@ import (
 //
 //	wcap := w0 | w<n> | w~<k>:<d>   (body after k cycles of the twin's answer, k=0: whole body) + d
 //	ecap := e0 | e<n> | e~<k>:<d>   (raw bytes of the twin's first k uploads, k=0: all) + d
-//	             | e^<k>:<d>        (raw bytes of the first k-1 uploads + buffer size of the k-th) + d
+//	             | e^<k>:<d>        (raw bytes of the first k-1 uploads + buffer size of the k-th) + d; k=0: the last upload
 
 func init() {
 	Register(&Prop{
@@ -225,8 +225,14 @@ func resolveCaps(wcap, ecap string, f *twinFacts) (w, x int64, ok bool) {
 		x = atLeast1(sumFirst(k) + d)
 	case '^':
 		k, d, okk := rel(ecap[2:])
-		if !okk || k < 1 {
+		if !okk {
 			return 0, 0, false
+		}
+		if k == 0 { // the LAST upload of the twin's answer
+			k = len(f.uploadRaws)
+			if k == 0 {
+				k = 1
+			}
 		}
 		var bufK int64 // buffer size of the k-th uploaded data batch
 		n := 0
